@@ -44,6 +44,25 @@ def gen_attrs(rng, preserve_rate=0.1):
     return sorted(attrs)
 
 
+# white space beyond ASCII (in Gen/GenWs.v's table; legal XML characters): NBSP, em space, thin space, ideographic space
+UWS = ["\u00a0", "\u2003", "\u2009", "\u3000"]
+
+
+def word_sep(rng, rate=0.08):
+    """the separator between two words of a leaf text: a space, now and then with non-ASCII white space"""
+    if rng.random() >= rate:
+        return " "
+    return rng.choice([rng.choice(UWS), " " + rng.choice(UWS), rng.choice(UWS) + " ", rng.choice(UWS) + rng.choice(UWS),
+                       " " + rng.choice(UWS) + " "])
+
+
+def join_words(rng, words, rate=0.08):
+    out = ""
+    for i, w in enumerate(words):
+        out += (word_sep(rng, rate) if i else "") + w
+    return out
+
+
 def gen_words(rng, lo=1, hi=6, pool=None):
     pool = pool or WORDS
     return [rng.choice(pool if rng.random() < 0.85 else WORDS) for _ in range(rng.randint(lo, hi))]
@@ -65,9 +84,9 @@ def gen_data_tree(rng, depth, preserve_rate=0.05):
     if r < 0.15:
         return ("tag", "", name, attrs, [])
     if r < 0.4 or depth == 0:
-        lead = rng.choice(["", "", " ", "\n  "])
-        trail = rng.choice(["", "", " ", "\n"])
-        return ("tag", "", name, attrs, [("text", lead + " ".join(gen_words(rng, 1, 4, SHORT)) + trail)])
+        lead = rng.choice(["", "", " ", "\n  ", "\u00a0", "\n\u2003"])
+        trail = rng.choice(["", "", " ", "\n", "\u2009", "\u3000\n"])
+        return ("tag", "", name, attrs, [("text", lead + join_words(rng, gen_words(rng, 1, 4, SHORT)) + trail)])
     if r < 0.45:
         return ("tag", "", name, attrs, [("text", rng.choice(WS))])
     kids = []
@@ -81,7 +100,7 @@ def gen_data_tree(rng, depth, preserve_rate=0.05):
             kids.append(gen_misc(rng))
         else:
             # a text among structural children: joined with the whitespace around it by the parser
-            kids.append(("text", " ".join(gen_words(rng, 1, 3, SHORT))))
+            kids.append(("text", join_words(rng, gen_words(rng, 1, 3, SHORT))))
     kids.append(("text", rng.choice(["\n", " ", "\n  "])))
     return ("tag", "", name, attrs, kids)
 
@@ -133,12 +152,13 @@ def gen_text(rng, width_hint=None):
         if rest > 0:
             acc.append("z" * rest)
         ws = acc + gen_words(rng, 0, 3)
-    sep = lambda: rng.choice([" ", " ", " ", "  ", "\n", "\n   "])  # noqa: E731
+    sep = lambda: (rng.choice([" ", " ", " ", "  ", "\n", "\n   "]) if rng.random() < 0.94  # noqa: E731
+                   else word_sep(rng, 1.0))
     s = ""
     for i, w in enumerate(ws):
         s += (sep() if i else "") + w
-    lead = rng.choice(["", "", " ", "\n "])
-    trail = rng.choice(["", "", " ", "\n"])
+    lead = rng.choice(["", "", " ", "\n "]) if rng.random() < 0.95 else rng.choice(UWS + [" \u00a0"])
+    trail = rng.choice(["", "", " ", "\n"]) if rng.random() < 0.95 else rng.choice(UWS + ["\u2003 "])
     s = lead + s + trail
     return s
 
@@ -161,7 +181,28 @@ def gen_mixed_tree(rng, depth, width_hint=None, preserve_rate=0.12, in_preserve=
             kids.append(("tag", "", rng.choice(NAMES), gen_attrs(rng, 0.0), []))
         else:
             kids.append(gen_misc(rng))
+    add_twin(rng, kids)
     return ("tag", "", rng.choice(NAMES), attrs, kids)
+
+
+def add_twin(rng, kids, rate=0.12):
+    """now and then the last child is a text / comment / PI with exactly the content of an earlier child that is directly
+    followed by an element, comment or PI (nodes other than elements compare by content)"""
+    if len(kids) < 2 or rng.random() >= rate:
+        return
+    cands = [i for i in range(len(kids) - 1) if kids[i][0] in ("text", "comment", "pi") and kids[i + 1][0] != "text"]
+    if not cands:
+        return
+    i = rng.choice(cands)
+    k = kids[i]
+    if k[0] == "text":
+        if kids[-1][0] == "text":
+            return
+        words = k[1].split()
+        if not words:
+            return
+        k = kids[i] = ("text", " ".join(words))     # the same after reduction wherever it stands
+    kids.append(k)
 
 
 # ---------------------------------------------------------------------------------------------- implementation side
